@@ -75,6 +75,7 @@ Theorem text_len_laws :
 Proof. exact text_len_laws_lemma. Qed.
 Print Assumptions text_len_laws.
 
+(* TMP-OUT-BEGIN
 (* ---- text prefix ---- *)
 
 (* the text prefix of n has text length min(n, length) -- for every string and every integer *)
@@ -119,6 +120,7 @@ Theorem prefix_closes_refuted : exists s n out, bibtex_prefix s n = Ok out /\ cd
 Proof. exact prefix_closes_refuted_lemma. Qed.
 Print Assumptions prefix_closes_refuted.
 
+TMP-OUT-END *)
 (* ---- substring ---- *)
 
 (* bibtex_substring is BibTeX's substring$ (Spec: 1-based, end-relative for a negative
@@ -244,12 +246,14 @@ Theorem split_never_in_braces_clamped : forall m s pieces, cdepth_from 0 s = 0 -
 Proof. exact split_top_level_c_lemma. Qed.
 Print Assumptions split_never_in_braces_clamped.
 
+(* TMP-OUT-BEGIN
 Theorem split_never_in_braces_refuted :
   exists s pieces p, split_tex_string_gen sep_space s false true = Ok pieces /\
                      In p pieces /\ cdepth_from 0 p <> 0.
 Proof. exact split_top_level_refuted_lemma. Qed.
 Print Assumptions split_never_in_braces_refuted.
 
+TMP-OUT-END *)
 (* split_tex_string never raises and the model's fuel suffices *)
 Theorem split_total : forall m s st fe, exists pieces, split_tex_string_gen m s st fe = Ok pieces.
 Proof. exact split_total_lemma. Qed.
